@@ -739,6 +739,7 @@ Fixpoint toks_eqb (a b : list tok) : bool :=
 Inductive case :=
 | CFrag (t1 : list tok) (i1 : instr) (t2 : list tok) (p1_eq_p2 t2_eq_t3 : bool)
 | CItem (t1 : list tok) (it1 : item) (t2 : list tok) (p1_eq_p2 t2_eq_t3 : bool)
+| CProg (its : list item) (t2 : list tok) (p1_eq_p2 t2_eq_t3 : bool)
 | COpaque (print_ok p1_eq_p2 t2_eq_t3 : bool).
 
 (** the verified checker: the implementation's output tokens are the model's print of a
@@ -760,6 +761,15 @@ Definition parses_to_item (ts : list tok) (it : item) : bool :=
   | _ => false
   end.
 
+(** a whole program ([CProg]): the instruction list [Program::to_instructions] of the parsed
+    program (the container's order, which is the order in which it is printed) and the tokens of
+    the printed text *)
+Definition parses_to_items (ts : list tok) (its : list item) : bool :=
+  match p_items Repaired ts with
+  | Ok js [] => toks_eqb (print_items (map norm_item js)) (print_items its)
+  | _ => false
+  end.
+
 (** code 2: the round trip fails on the implementation's own output (the printed tokens do not
     re-parse to the AST, or the real chain reports a difference); code 1: model and
     implementation differ (parser model on the input, or printer model on the AST) although the
@@ -778,6 +788,11 @@ Definition case_code (c : case) : N :=
       else if negb (parses_to_item t2 it1) then 2%N
       else if negb (wf_item it1 && toks_eqb (print_item it1) t2) then 1%N
       else if negb (parses_to_item t1 it1) then 1%N
+      else 0%N
+  | CProg its t2 b d =>
+      if negb (b && d) then 2%N
+      else if negb (parses_to_items t2 its) then 2%N
+      else if negb (forallb wf_item its && toks_eqb (print_items its) t2) then 1%N
       else 0%N
   end.
 
